@@ -144,5 +144,13 @@ func allProps() []PropSpec {
 			},
 			Assumptions: []string{"operation sequences of length K with sizes base+d, base in {1,1024,4096,8192}, d in [-1,1]; input fragmented as whole / 1000 / 4096 / 5000-byte reads", "mcache and sync.Pool are modelled as LIFO free lists that re-issue freed blocks (so use-after-release is observable)", "TLS conn, ReadFrom, the 512 KiB malloc limit and EOF/error paths are outside"},
 		},
+		{
+			ID: "C09",
+			Harnesses: []HarnessSpec{
+				{Func: "ZZ_C09_H1", Pkg: "pkg/protocol/http1", Covers: []string{"reached-assert"}, MaxSteps: 4000000},
+				{Func: "ZZ_C14_H2", Pkg: "pkg/protocol/http1", Covers: []string{"reached-assert", "both-handled"}, Note: "pooled body stream reused on another connection after a failed release"},
+			},
+			Assumptions: []string{"sequential reuse only (sync.Pool modelled LIFO, so the recycled object really is the one handed out next); cross-goroutine migration and the race detector are outside this technique", "history = one or two mutators from the 30-entry list in harness/pkg/protocol/http1/c09.go with a symbolic argument byte, optionally followed by a recovered panic; observation = the dump in zzDump plus the probe's response bytes"},
+		},
 	}
 }
